@@ -376,9 +376,10 @@ func genCase(h *rt.H) []string {
 func main() {
 	h := rt.New()
 	defer h.Close()
-	h.Rule = "case = fresh ValidationFilter+ARC, 5..34 raw updates over {WEP/HEP with 0..3 (rarely duplicated) profile ids, ProfileRules, deletes, in-sync, replays of earlier updates}; " +
+	h.Rule = "two streams. (1) profile stream: case = fresh ValidationFilter+ARC, 5..34 raw updates over {WEP/HEP with 0..3 (rarely duplicated) profile ids, ProfileRules, deletes, in-sync, replays of earlier updates}; " +
 		"25-30% of values are invalid variants classified by the REAL validators (missing name, spoofing not enabled, bad gateway, bad interface/profile name, bad selector, icmp type 255, ip version 5); " +
-		"distinct = distinct op sequence; non-trivial = a referenced profile was missing or invalid at some point (deny stand-in emitted) and later replaced, or an invalid update hit an existing valid object"
+		"(2) policy/tier stream (every third case): fresh ValidationFilter+dispatcher+ARC(label index)+PolicyResolver/PolicySorter, 5..34 raw tier / policy (25% invalid variants) / endpoint updates, in-sync, flushes, incl. the tier(Pass)+matching policy+tier-deleted scenario; " +
+		"distinct = distinct op sequence; non-trivial = (2) a tier was deleted during the case, (1) a referenced profile was missing or invalid at some point (deny stand-in emitted) and later replaced, or an invalid update hit an existing valid object"
 	s := &state{}
 	run := func(ops []string, tag string) {
 		h.Case(tag)
@@ -417,11 +418,45 @@ func main() {
 		}
 		h.Sample()
 	}
+	var ps *pstate
+	runPol := func(ops []string, tag string) {
+		h.Case(tag)
+		ps = nil
+		dangling := false
+		for _, op := range ops {
+			execPol(h, &ps, op)
+			if strings.HasPrefix(op, "rtier-del") {
+				dangling = true
+			}
+		}
+		h.Count("stream:policy-tier")
+		if dangling {
+			h.Nontrivial(strings.Join(ops, ";"))
+		}
+		h.Sample()
+	}
+	isPol := func(ops []string) bool {
+		for _, op := range ops {
+			switch strings.Fields(op)[0] {
+			case "newp", "rtier", "rtier-del", "rpol", "rpol-del", "rep", "rep-del", "flush", "status", "match", "unmatch":
+				return true
+			}
+		}
+		return false
+	}
 	if h.Replay != "" {
-		run(h.ReplayLines(), "replay")
+		if ops := h.ReplayLines(); isPol(ops) {
+			runPol(ops, "replay")
+		} else {
+			run(ops, "replay")
+		}
 		return
 	}
 	for i := 0; i < h.N; i++ {
-		run(genCase(h), "gen")
+		if i%3 == 2 {
+			runPol(genPolCase(h), "gen-pol")
+		} else {
+			run(genCase(h), "gen")
+		}
 	}
 }
